@@ -98,6 +98,9 @@ type result struct {
 	Samples    []witness             `json:"samples"`
 	Forms      int                   `json:"forms_max"`
 	Sanity     []string              `json:"valid_forms_refused_by_probe"`
+	NoPayload  []string              `json:"validations_without_passing_body"`
+	PayloadReq int64                 `json:"valid_body_requests"`
+	PayloadRan int64                 `json:"valid_body_handler_ran"`
 	Error      string                `json:"error"`
 }
 
@@ -106,7 +109,7 @@ func newResult() *result {
 }
 
 func flagState(f router.VerifC20Flags) string {
-	return fmt.Sprintf("auth=%v can=%v light=%v cred=%v perms=%v(%v)", f.MustAuthenticate, f.CanAuthenticate, f.Lightweight, f.CheckCredentials, f.RequiredPermissions, f.HasPermissions)
+	return fmt.Sprintf("auth=%v can=%v light=%v cred=%v perms=%v(%v) validations=%d", f.MustAuthenticate, f.CanAuthenticate, f.Lightweight, f.CheckCredentials, f.RequiredPermissions, f.HasPermissions, len(f.Validations))
 }
 
 // relevant lists the permissions a declaration names (flags and text), without ego.root.
@@ -157,7 +160,9 @@ func newRunner(w *world) *runner {
 func (x *runner) send(rt *router.Router, method, path string, f form, flags router.VerifC20Flags) (int, *hitInfo) {
 	var req *http.Request
 
-	if f.IsBody {
+	if f.Payload != "" {
+		req = httptest.NewRequest(method, path, bytes.NewReader([]byte(f.Payload)))
+	} else if f.IsBody {
 		req = httptest.NewRequest(method, path, bytes.NewReader([]byte(f.Body)))
 	} else {
 		req = httptest.NewRequest(method, path, nil)
@@ -180,7 +185,7 @@ func (x *runner) send(rt *router.Router, method, path string, f form, flags rout
 
 	if len(flags.ContentMedia) > 0 {
 		req.Header.Set("Content-Type", flags.ContentMedia[0])
-	} else if f.IsBody {
+	} else if f.IsBody || f.Payload != "" {
 		req.Header.Set("Content-Type", "application/json")
 	}
 
@@ -258,16 +263,38 @@ func (x *runner) runItem(it *item, only string) {
 		bodyOK := m == http.MethodPost || m == http.MethodPut
 		headerOK := !(it.flags.Method == router.AnyMethod && m == http.MethodPost)
 
-		forms := x.w.forms(rel, bodyOK)
-		if len(forms) > x.res.Forms {
-			x.res.Forms = len(forms)
+		// A route with a payload validation is also requested with a body that passes
+		// it, under every header form: a later step of the gate must not undo a refusal.
+		payload := ""
+		if m == http.MethodPost || m == http.MethodPut || m == http.MethodPatch {
+			payload = passingPayload(it.flags)
+
+			if len(it.flags.Validations) > 0 && payload == "" {
+				x.res.NoPayload = append(x.res.NoPayload, it.Key)
+			}
+		}
+
+		base := x.w.forms(rel, bodyOK)
+		if len(base) > x.res.Forms {
+			x.res.Forms = len(base)
+		}
+
+		var forms []form
+
+		for _, f := range base {
+			if f.IsBody || headerOK {
+				forms = append(forms, f)
+			}
+
+			if !f.IsBody && payload != "" {
+				g := f
+				g.Name += "+valid-body"
+				g.Payload = payload
+				forms = append(forms, g)
+			}
 		}
 
 		for fi, f := range forms {
-			if !f.IsBody && !headerOK {
-				continue
-			}
-
 			if only != "" && f.Name != only {
 				continue
 			}
@@ -280,6 +307,15 @@ func (x *runner) runItem(it *item, only string) {
 			undo()
 
 			x.res.Evals++
+
+			if f.Payload != "" {
+				x.res.PayloadReq++
+
+				if hit != nil {
+					x.res.PayloadRan++
+				}
+			}
+
 			x.res.PerKind[it.Kind]++
 			x.res.Status[fmt.Sprint(status)]++
 			x.dist[flagState(it.flags)+"|"+m+"|"+f.Name] = true
@@ -589,7 +625,7 @@ func main() {
 	depth := r.Pick(3, 4)
 
 	r.Rule(fmt.Sprintf("declarations = every route of the server's real table (all roles on: services, native admin, cluster, OAuth AS + RS) + every sequence of 0..%d builder calls over %v on a fresh route + %d generated service files over the @endpoint/@authenticated auth grammar; "+
-		"each x every credential form (none, malformed headers, Basic right/wrong/locked-out, body credentials on POST/PUT, native tokens valid/expired/tampered/foreign-key/revoked cold and cached, JWTs valid and forged), each from purged caches, through the real Router.ServeHTTP with observing handlers. "+
+		"each x every credential form, on routes with a payload validation also with a body that passes it (none, malformed headers, Basic right/wrong/locked-out, body credentials on POST/PUT, native tokens valid/expired/tampered/foreign-key/revoked cold and cached, JWTs valid and forged), each from purged caches, through the real Router.ServeHTTP with observing handlers. "+
 		"evaluations = requests judged. distinct non-trivial = distinct (route flag state, method, credential form) triples", depth, builderAlphabet, len(directiveTexts())))
 	r.Assume(
 		"reference truth (who a credential authenticates, which permissions that identity holds) comes from the harness's own user/token/JWT tables; generous where the statement is silent (a valid credential of a user without ego.logon, a locked-out user with the right password, a valid token of a deleted user, a JWT without exp/with wrong iss signed by the provider key count as authenticated), so only refusals the statement demands are demanded",
@@ -741,6 +777,10 @@ func merge(r *report.R, results []*result) {
 			total.Sanity = x.Sanity
 		}
 
+		total.NoPayload = append(total.NoPayload, x.NoPayload...)
+		total.PayloadReq += x.PayloadReq
+		total.PayloadRan += x.PayloadRan
+
 		for _, s := range x.Samples {
 			r.Sample(s)
 		}
@@ -773,6 +813,9 @@ func merge(r *report.R, results []*result) {
 	r.Set("route_flag_states", len(states))
 	r.Set("credential_forms_max", total.Forms)
 	r.Set("generous_reference_forms_refused_by_an_authentication_only_route", total.Sanity)
+	r.Set("valid_body_requests", total.PayloadReq)
+	r.Set("valid_body_requests_whose_handler_ran", total.PayloadRan)
+	r.Set("routes_with_validation_but_no_passing_body", uniq(total.NoPayload))
 	r.Set("real_route_list", realRoutes)
 	r.Set("real_routes", len(realRoutes))
 	r.Set("real_routes_whose_handler_ran", len(realRoutes)-len(unreached))
